@@ -195,6 +195,31 @@ Definition kf_C06_cross_type (c : render_case) : bool :=
 Definition kf_C06_zero_size (c : render_case) : bool :=
   existsb kf_zero_size_in_leaf_list (positions (sc_a (rc_script c)) (sc_b (rc_script c)) (sc_edit (rc_script c))).
 
+(* D23 (found by this property): a MAPPING that is an element of a LIST and is replaced (Replace / Match at a
+   cost) by something else is rendered  from -> to -> to : the edit is printed a second time inside the removed
+   region (see RenderModel.from_to_twice), so neither projection reads back. *)
+Definition is_mapping_node (t : tree) : bool := match t with MSet _ _ | FDict _ => true | _ => false end.
+Definition is_list_node (t : tree) : bool := match t with Lst _ _ _ => true | _ => false end.
+Definition costly_swap (e : edit) : bool := match e with EMatch c | EReplace c => 0 <? c | _ => false end.
+Fixpoint mapping_replaced_in_list (a b : tree) (e : edit) {struct e} : bool :=
+  match e with
+  | EComp _ _ subs =>
+      (fix go (ss : list sub) : bool :=
+         match ss with
+         | [] => false
+         | SPair i j e' :: r =>
+             match nth_error (children a) i, nth_error (children b) j with
+             | Some x, Some y =>
+                 (is_list_node a && is_mapping_node x && costly_swap e') || mapping_replaced_in_list x y e' || go r
+             | _, _ => go r
+             end
+         | _ :: r => go r
+         end) subs
+  | _ => false
+  end.
+Definition kf_C06_mapping_replaced_in_list (c : render_case) : bool :=
+  mapping_replaced_in_list (sc_a (rc_script c)) (sc_b (rc_script c)) (sc_edit (rc_script c)).
+
 (* inside the domain of the theorems?  (documents json.loads can produce; reported in the evidence) *)
 Definition in_domain_C06 (c : render_case) : bool :=
   json_domainb (value_of (sc_a (rc_script c))) && json_domainb (value_of (sc_b (rc_script c))).
